@@ -44,6 +44,8 @@ def plan(tier):
             nl = len(variants(n, 2, (1,)))
             for i in range(0, nl, 40):
                 t.append({'kind': 'pairs', 'n': n, 'm': 1, 'kl': 2, 'kr': 1, 'lo': i, 'hi': i + 40, 'names': 'default', 'last_only': True})
+    t.append({'kind': 'zero'})
+    t.append({'kind': 'big'})
     t.append({'kind': 'm3'})
     t.append({'kind': 'mismatch'})
     return t
@@ -55,7 +57,7 @@ def describe(tier):
         '(every sequence of 1..2 nodes incl. inputs and repeats); both circuits share labels (also with the right circuit declaring the same input labels in reversed order); build_miter with default and custom '
         'block names; the miter is evaluated on all 2^n inputs through Circuit.evaluate and the reference evaluator; '
         'is_circuit_satisfiable(miter) with the shim solver; operands re-abstracted; every mismatched-shape pair from a small '
-        'pool must raise MiterDifferentShapesError. distinct = distinct (n, m, difference table) outcomes.',
+        'pool must raise MiterDifferentShapesError; zero-input pairs (constants); shapes with 257/300 inputs and 129/200 outputs evaluated on all-zero, all-one and one-hot rows. distinct = distinct (n, m, difference table) outcomes.',
         'bounds': {'quick': 'n in {1,2}: all pairs with <=1 gate each, m in {1,2}; left with 2 gates vs right with <=1 gate (n=1: all outputs; n=2: single outputs on non-dead choices); 3-output pairs from a 12-variant pool',
                    'thorough': 'n in {1,2}: left <=2 gates x right <=1 gate, m in {1,2}, all output lists'}[tier],
         'exhaustive': True,
@@ -215,7 +217,72 @@ def run_mismatch(acc):
     acc.sample({'left': space.spec_json(*pool[1]), 'right': space.spec_json(*pool[5])})
 
 
+def run_zero(acc):
+    """Circuits without inputs (constants and gates over them)."""
+    pool = [v for m in (1, 2) for v in variants(0, 2, (m,))]
+    for L in pool:
+        for R in pool:
+            if len(L[2]) == len(R[2]):
+                check_pair(L, R, acc)
+    acc.sample({'left': space.spec_json(*pool[0]), 'right': space.spec_json(*pool[-1]), 'names': None})
+
+
+def run_big(acc):
+    """Shapes beyond small-integer caching and beyond one machine word: 257/300 inputs, 129/200 outputs.
+    The miter is evaluated by the reference evaluator on a stated set of rows: all zero, all one, one-hot."""
+    from cirbo.core.circuit import Circuit, gate as G
+    from cirbo.sat import build_miter
+
+    for nin, nout in ((8, 129), (8, 200), (257, 2), (300, 3), (260, 130)):
+        acc.states += 1
+        acc.traces += 1
+        acc.transitions += 1
+        case = {'big': {'inputs': nin, 'outputs': nout}}
+
+        def mk(kind):
+            c = Circuit()
+            ins = [f'i{j}' for j in range(nin)]
+            c.add_inputs(ins)
+            outs = []
+            for o in range(nout):
+                a, b = ins[o % nin], ins[(o * 7 + 3) % nin]
+                t = (G.AND, G.OR, G.XOR)[(o + (1 if kind == 'B' and o == nout - 1 else 0)) % 3]
+                c.emplace_gate(f'o{o}', t, (a, b))
+                outs.append(f'o{o}')
+            c.set_outputs(outs)
+            return c
+
+        for kinds in (('A', 'A'), ('A', 'B')):
+            l_, r_ = mk(kinds[0]), mk(kinds[1])
+            try:
+                mt = build_miter(l_, r_)
+            except Exception as e:  # noqa: BLE001
+                acc.violation(f'build_miter/raises-{type(e).__name__}', {**case, 'pair': kinds}, repr(e)[:200], {'big': True})
+                continue
+            rows = nin + 2
+            mask = (1 << rows) - 1
+            ivec = [(1 << (j + 2)) | 2 for j in range(nin)]  # row 0: all zero, row 1: all one, row j+2: only input j
+            mnet = refmodel.abstract(mt)
+            if len(mnet.inputs) != nin or len(mnet.outputs) != 1:
+                acc.violation('build_miter/shape', {**case, 'pair': kinds}, f'{len(mnet.inputs)} inputs', {'big': True})
+                continue
+            got = mnet.tables(ivec, mask)[mnet.outputs[0]]
+            ta = refmodel.abstract(l_).tables(ivec, mask)
+            tb = refmodel.abstract(r_).tables(ivec, mask)
+            want = 0
+            for oa, ob in zip(l_.outputs, r_.outputs):
+                want |= ta[oa] ^ tb[ob]
+            if got != want:
+                acc.violation('build_miter/wrong-function', {**case, 'pair': kinds}, 'on the stated rows', {'big': True})
+            acc.outcome('miter', ('big', nin, nout, kinds, want != 0))
+    acc.sample({'big': {'inputs': 257, 'outputs': 2}})
+
+
 def run_task(task, acc):
+    if task['kind'] == 'zero':
+        return run_zero(acc)
+    if task['kind'] == 'big':
+        return run_big(acc)
     if task['kind'] == 'pairs':
         return run_pairs(task, acc)
     if task['kind'] == 'm3':
@@ -226,6 +293,8 @@ def run_task(task, acc):
 def replay(case, acc):
     if 'task' in case:
         return run_task(case['task'], acc)
+    if 'big' in case:
+        return run_big(acc)
     L = space.spec_from_json(case['left'])
     R = space.spec_from_json(case['right'])
     if L[0] != R[0] or len(L[2]) != len(R[2]):
